@@ -400,6 +400,16 @@ core("rescale", "int-out", lambda b: (U.rescale, (b.img(2, 2), 0, 255), {"dtype"
 core("rescale", "int-in", lambda b: (U.rescale, (b.int_img(2, 2, high=100), 0, 1), {}))
 core("rescale", "same-dtype", lambda b: (U.rescale, (b.img(2, 2), 0, 1), {"dtype": torch.float32}))
 core("rescale", "constant", lambda b: (U.rescale, (torch.ones((1, 1) + b.shape), 0, 1), {}))
+# value-level no-ops: the output range equals the data range and data_min == 0, so every arithmetic step (shift, scale,
+# offset) leaves the values unchanged; the in-place rounding / clamping that follows must still act on a temporary
+def _range_img(b, hi):
+    x = b.img(2, 2) * hi
+    x.view(-1)[0], x.view(-1)[1] = 0.0, float(hi)
+    return x
+core("rescale", "identity-range-int-out", lambda b: (U.rescale, (_range_img(b, 255), 0, 255), {"dtype": torch.uint8}))
+core("rescale", "identity-range-int-out-auto", lambda b: (U.rescale, (_range_img(b, 255),), {"dtype": torch.uint8}))
+core("rescale", "identity-range-clamps", lambda b: (U.rescale, (_range_img(b, 3) - 1.0,), {"data_min": 0, "data_max": 1}))
+core("rescale", "identity-range-float", lambda b: (U.rescale, (_range_img(b, 1), 0, 1), {}))
 core("sample_image", "points", lambda b: (U.sample_image, (b.img(1, 2), b.pts()), {}))
 core("sample_image", "grid-coords", lambda b: (U.sample_image, (b.img(1, 2), b.coords()), {}))
 core("sample_image", "const-padding", lambda b: (U.sample_image, (b.img(1, 2), b.pts() * 1.5), {"padding": 1.5}))
